@@ -19,6 +19,7 @@ import (
 	"fmt"
 	"math/rand"
 	"net/http"
+	"runtime/debug"
 	"sort"
 	"strings"
 	"sync"
@@ -285,6 +286,18 @@ func trimQ(b []byte) string {
 
 type finding struct{ key, what string }
 
+// evAgg batches monitor event counters per block of cases (one mon lock per
+// block and counter instead of several per case).
+type evAgg map[string]int
+
+func (e evAgg) Event(name string, n int) { e[name] += n }
+func (e evAgg) flush(r *mon.Run) {
+	for k, v := range e {
+		r.Event(k, v)
+		delete(e, k)
+	}
+}
+
 // violate records a violation; the message and payload are only built for the
 // first few of a key (mon keeps three replays per key, the rest is counted).
 var violCount sync.Map
@@ -311,9 +324,11 @@ func extraKey(m *attrModel, attr string) string {
 
 // checkFasthttpParse compares a fasthttp parse-back with the model.
 // getDomain/getPath are the setter-side getters (sanitised/normalised values).
-func checkFasthttpParse(m *attrModel, octet bool, getDomain, getPath []byte, p *fasthttp.Cookie, r *mon.Run) []finding {
+func checkFasthttpParse(m *attrModel, octet bool, getDomain, getPath []byte, p *fasthttp.Cookie, r evAgg) []finding {
 	var f []finding
-	bad := func(key, format string, a ...any) { f = append(f, finding{key, "Cookie.ParseBytes: " + fmt.Sprintf(format, a...)}) }
+	bad := func(key, format string, a ...any) {
+		f = append(f, finding{key, "Cookie.ParseBytes: " + fmt.Sprintf(format, a...)})
+	}
 	// flags
 	if p.Secure() != m.secure {
 		if p.Secure() {
@@ -415,7 +430,9 @@ var sameSiteHTTP = map[fasthttp.CookieSameSite]http.SameSite{
 // attribute"; for cookie-octet inputs with a token name, equality.
 func checkNetHTTP(m *attrModel, octet bool, getDomain, getPath []byte, c *http.Cookie) []finding {
 	var f []finding
-	bad := func(key, format string, a ...any) { f = append(f, finding{key, "net/http: " + fmt.Sprintf(format, a...)}) }
+	bad := func(key, format string, a ...any) {
+		f = append(f, finding{key, "net/http: " + fmt.Sprintf(format, a...)})
+	}
 	if c.Secure && !m.secure {
 		bad(extraKey(m, "secure"), "Secure seen, not set")
 	}
@@ -474,7 +491,7 @@ func checkNetHTTP(m *attrModel, octet bool, getDomain, getPath []byte, c *http.C
 	return f
 }
 
-func responseCase(r *mon.Run, i int) {
+func responseCase(r *mon.Run, ev evAgg, i int) {
 	rnd := r.Rand("resp", i)
 	octet := rnd.Intn(5) < 2
 	n := 1
@@ -537,20 +554,20 @@ func responseCase(r *mon.Run, i int) {
 	for j, m := range models {
 		var p fasthttp.Cookie
 		if err := p.ParseBytes(direct[j]); err != nil {
-			r.Event("direct_parse_rejected", 1)
+			ev.Event("direct_parse_rejected", 1)
 			if octet {
 				r.Violation(i, "response-cookie-octet-rejected", fmt.Sprintf("ParseBytes(%q) rejected a cookie-octet cookie: %v", direct[j], err), payload())
 			}
 			continue
 		}
-		r.Event("direct_parsed", 1)
-		report(checkFasthttpParse(m, octet, getDomains[j], getPaths[j], &p, r))
+		ev.Event("direct_parsed", 1)
+		report(checkFasthttpParse(m, octet, getDomains[j], getPaths[j], &p, ev))
 	}
 	// (2) through ResponseHeader.SetCookie and the wire
 	var buf bytes.Buffer
 	bw := bufio.NewWriter(&buf)
 	if err := resp.Write(bw); err != nil {
-		r.Event("response_write_rejected", 1)
+		ev.Event("response_write_rejected", 1)
 		r.Case(feat+"|write-error", nontrivial)
 		return
 	}
@@ -560,7 +577,7 @@ func responseCase(r *mon.Run, i int) {
 	// fasthttp reader
 	var back fasthttp.Response
 	if err := back.Read(bufio.NewReader(bytes.NewReader(wire))); err != nil {
-		r.Event("wire_fasthttp_rejected", 1)
+		ev.Event("wire_fasthttp_rejected", 1)
 		outcome += "r"
 	} else {
 		var vals [][]byte
@@ -575,18 +592,18 @@ func responseCase(r *mon.Run, i int) {
 			for j, v := range vals {
 				var p fasthttp.Cookie
 				if err := p.ParseBytes(v); err != nil {
-					r.Event("wire_parse_rejected", 1)
+					ev.Event("wire_parse_rejected", 1)
 					if octet {
 						r.Violation(i, "response-cookie-octet-rejected", fmt.Sprintf("ParseBytes(%q) rejected a cookie-octet cookie: %v", v, err), payload())
 					}
 					continue
 				}
-				r.Event("wire_parsed_fasthttp", 1)
-				report(checkFasthttpParse(models[j], octet, getDomains[j], getPaths[j], &p, r))
+				ev.Event("wire_parsed_fasthttp", 1)
+				report(checkFasthttpParse(models[j], octet, getDomains[j], getPaths[j], &p, ev))
 			}
 		} else if len(vals) < n {
 			outcome += "d"
-			r.Event("wire_fasthttp_dropped_cookie", 1)
+			ev.Event("wire_fasthttp_dropped_cookie", 1)
 			if octet {
 				r.Violation(i, "response-cookie-octet-rejected", fmt.Sprintf("%d cookie-octet cookies set, %d read back", n, len(vals)), payload())
 			}
@@ -595,7 +612,7 @@ func responseCase(r *mon.Run, i int) {
 	// net/http reader
 	hr, err := http.ReadResponse(bufio.NewReader(bytes.NewReader(wire)), nil)
 	if err != nil {
-		r.Event("wire_nethttp_rejected", 1)
+		ev.Event("wire_nethttp_rejected", 1)
 		outcome += "r"
 	} else {
 		lines := hr.Header["Set-Cookie"]
@@ -607,11 +624,11 @@ func responseCase(r *mon.Run, i int) {
 			for j, ln := range lines {
 				c, err := http.ParseSetCookie(ln)
 				if err != nil {
-					r.Event("nethttp_parse_rejected", 1)
+					ev.Event("nethttp_parse_rejected", 1)
 					continue
 				}
 				acc++
-				r.Event("wire_parsed_nethttp", 1)
+				ev.Event("wire_parsed_nethttp", 1)
 				// net/http only accepts token names; exact round trip is demanded when it accepts
 				report(checkNetHTTP(models[j], octet, getDomains[j], getPaths[j], c))
 			}
@@ -657,7 +674,7 @@ func canon(k, v string) string {
 
 var reqKeys = []string{"a", "b", "sid", "k", "admin", "x-y", "A"}
 
-func requestCase(r *mon.Run, i int) {
+func requestCase(r *mon.Run, ev evAgg, i int) {
 	rnd := r.Rand("req", i)
 	octet := rnd.Intn(5) < 2
 	var req fasthttp.Request
@@ -757,7 +774,7 @@ func requestCase(r *mon.Run, i int) {
 	var buf bytes.Buffer
 	bw := bufio.NewWriter(&buf)
 	if err := req.Write(bw); err != nil {
-		r.Event("request_write_rejected", 1)
+		ev.Event("request_write_rejected", 1)
 		r.Case(feat+"|write-error", nontrivial)
 		return
 	}
@@ -795,7 +812,9 @@ func requestCase(r *mon.Run, i int) {
 			if semi {
 				key = "request-cookie-semicolon"
 			}
-			violate(r, i, key, func() string { return fmt.Sprintf("%s sees %d cookies, %d were set; ops %v", peer, len(seen), len(model), ops) }, func() any { return payload })
+			violate(r, i, key, func() string {
+				return fmt.Sprintf("%s sees %d cookies, %d were set; ops %v", peer, len(seen), len(model), ops)
+			}, func() any { return payload })
 		}
 		if exact {
 			// as multisets: the order after a delete is C29's subject
@@ -813,7 +832,7 @@ func requestCase(r *mon.Run, i int) {
 	outcome := ""
 	var back fasthttp.Request
 	if err := back.Read(bufio.NewReader(bytes.NewReader(wire))); err != nil {
-		r.Event("wire_fasthttp_rejected", 1)
+		ev.Event("wire_fasthttp_rejected", 1)
 		outcome += "r"
 		if octet {
 			r.Violation(i, "request-cookie-octet-rejected", fmt.Sprintf("Request.Read rejected a request with cookie-octet cookies: %v", err), payload)
@@ -824,8 +843,8 @@ func requestCase(r *mon.Run, i int) {
 			seen = append(seen, kv{string(k), string(v)})
 		}
 		outcome += "a"
-		r.Event("request_cookies_seen_fasthttp", len(seen))
-		r.Event("requests_read_fasthttp", 1)
+		ev.Event("request_cookies_seen_fasthttp", len(seen))
+		ev.Event("requests_read_fasthttp", 1)
 		judge("fasthttp server", seen, octet)
 		if octet {
 			for _, e := range model {
@@ -837,7 +856,7 @@ func requestCase(r *mon.Run, i int) {
 	}
 	hr, err := http.ReadRequest(bufio.NewReader(bytes.NewReader(wire)))
 	if err != nil {
-		r.Event("wire_nethttp_rejected", 1)
+		ev.Event("wire_nethttp_rejected", 1)
 		outcome += "r"
 	} else {
 		var seen []kv
@@ -845,7 +864,7 @@ func requestCase(r *mon.Run, i int) {
 			seen = append(seen, kv{c.Name, c.Value})
 		}
 		outcome += "a"
-		r.Event("requests_read_nethttp", 1)
+		ev.Event("requests_read_nethttp", 1)
 		allTokens := true
 		for _, e := range model {
 			if !isTokenStr(e.k) {
@@ -861,6 +880,8 @@ func requestCase(r *mon.Run, i int) {
 }
 
 func TestC06(t *testing.T) {
+	// short-lived garbage only (parsers, buffers): fewer GC cycles, same results
+	defer debug.SetGCPercent(debug.SetGCPercent(800))
 	r := mon.Start(t, "C06")
 	defer r.Finish()
 	r.Rule("response case = 1 cookie (hostile bytes: tokens rich in ; = \" \\ CR LF SP NUL %3B and attribute look-alikes) or 1-3 cookies (RFC 6265 cookie-octets) with a random subset of the 8 attribute setters (domain, path, expire, max-age, Secure, HttpOnly, SameSite x4 modes, Partitioned) applied in random order, through Cookie.Cookie()->ParseBytes and ResponseHeader.SetCookie->Response.Write->Response.Read / net/http; request case = 1-4 SetCookie/SetCookieBytesK/SetCookieBytesKV/DelCookie calls on a small key pool (so overwrite and delete happen) through Request.Write->Request.Read / net/http ReadRequest().Cookies(); distinct = (side, octet|hostile, attribute ops in order, byte classes present, parser outcomes); non-trivial = any attribute set, any hostile byte class, or more than one cookie")
@@ -871,20 +892,24 @@ func TestC06(t *testing.T) {
 	nReq := r.N(80_000, 2_000_000)
 	const block = 500
 	mon.Parallel((nResp+block-1)/block, 0, func(bi int) {
+		ev := evAgg{}
 		for k := 0; k < block; k++ {
 			i := bi*block + k
 			if i < nResp && r.Want(i) {
-				responseCase(r, i)
+				responseCase(r, ev, i)
 			}
 		}
+		ev.flush(r)
 	})
 	mon.Parallel((nReq+block-1)/block, 0, func(bi int) {
+		ev := evAgg{}
 		for k := 0; k < block; k++ {
 			j := bi*block + k
 			if j < nReq && r.Want(nResp+j) {
-				requestCase(r, nResp+j)
+				requestCase(r, ev, nResp+j)
 			}
 		}
+		ev.flush(r)
 	})
 	r.Require("direct_parsed", nResp/2)
 	r.Require("wire_parsed_fasthttp", nResp/2)
